@@ -293,6 +293,37 @@ def build(tier, rng):
                 # bytes hash is attributed the same way
                 o = outcome(ctx.identify, hv.encode("utf-8"))
                 g.check(o == ("ok", sch), f"attribution-bytes:{label}:{sch}", "bytes form of the hash attributed differently", dict(w, outcome=repr(o)))
+        # the EMPTY password: its hash under a wrapper scheme can be the bare prefix ({plaintext} for roundup / ldap plaintext)
+        for sch in schemes:
+            h = handlers.get(sch)
+            if h is None or getattr(h, "is_disabled", False):
+                continue
+            ch = ctx.handler(sch)
+            mr = min_rounds_of(ch) if "rounds" in getattr(ch, "setting_kwds", ()) else None
+            cfg = outcome(ch.using, rounds=mr) if mr is not None else ("ok", ch)
+            if cfg[0] != "ok":
+                continue
+            dr = getattr(cfg[1], "default_rounds", None)
+            if tier != "thorough" and mr is not None and dr is not None and (dr > 20000 if getattr(cfg[1], "rounds_cost", "linear") == "linear" else dr > 8):
+                continue
+            kw = {"user": "user17"} if "user" in getattr(ch, "context_kwds", ()) else {}
+            o = outcome(cfg[1].hash, "", **kw)
+            if o[0] != "ok":
+                continue  # a scheme refusing the empty password (C01's business)
+            hv = o[1]
+            g.case((label, sch, "empty-password", hv))
+            w = {"context": label, "schemes": schemes, "scheme": sch, "variant": "empty password", "hash": hv, "kwds": kw}
+            o = outcome(ctx.identify, hv)
+            got = o[1] if o[0] == "ok" else None
+            if got != sch:
+                if o[0] == "ok" and ((got, sch) in AMBIGUOUS_BY_DESIGN or (handlers.get(got) is not None and is_catch_all(handlers[got]) and schemes.index(got) < schemes.index(sch))):
+                    continue
+                if hv == "" or (o[0] == "ok" and got is not None and outcome(ctx.verify, "", hv, **kw) == ("ok", True)):
+                    continue  # an empty string / a hash another scheme of the context legitimately claims and verifies
+                g.fail(f"attribution-empty:{label}:{sch}->{got}", "hash of the empty password made by a scheme of the context is not attributed to that scheme", dict(w, outcome=repr(o)))
+                continue
+            o = outcome(ctx.verify, "", hv, **kw)
+            g.check(o == ("ok", True), f"verify:empty:{label}:{sch}", "context does not verify the empty password against its own scheme's hash of it", dict(w, outcome=repr(o)))
         # catch-all schemes never shadow: everything listed after one is still attributed to itself (covered above);
         # additionally an unknown-format string is attributed to nothing unless a catch-all is present
         g.case((label, "junk"))
